@@ -851,3 +851,196 @@ async fn expired_dust_output_cannot_be_spent() {
             gp, gp + 4, collected, accepted_by_validate, gp + 5, if rn.is_err() { "aborts the node".to_string() } else if tip_is_next { "becomes the tip".to_string() } else { "is refused".to_string() }));
     }
 }
+
+/// C01: an ATR-typed transaction is exempt from the signature and ownership checks, and the rebroadcast hash does not cover
+/// which output an input spends — a block whose rebroadcast of an expiring output has been pointed at a live output of
+/// the same owner (same key, amount, index, type) must be refused (scenario of an independent audit)
+#[tokio::test]
+#[serial_test::serial]
+async fn rebroadcast_pointed_at_a_live_output_is_refused() {
+    use crate::core::consensus::blockchain::AddBlockResult;
+    use std::ops::Deref;
+    use crate::core::util::crypto::generate_keys;
+    #[allow(unused_imports)] use ahash::AHashMap;
+
+    let mut t = TestManager::default();
+    let genesis_period = t
+        .config_lock
+        .read()
+        .await
+        .get_consensus_config()
+        .unwrap()
+        .genesis_period;
+
+    let (producer_key, producer_private_key) = {
+        let wallet = t.wallet_lock.read().await;
+        (wallet.public_key, wallet.private_key)
+    };
+    let (victim_key, _victim_private_key) = generate_keys();
+    let amount: Currency = 5_000_000;
+
+    // block 1 : the victim is issued `amount` (output OLD = 1-0-0), the producer a large sum
+    let mut issued = Slip::default();
+    issued.public_key = victim_key;
+    issued.amount = amount;
+    t.initialize_from_slips_and_value(vec![issued], 200_000_000_000_000)
+        .await;
+    let old_output = {
+        let blockchain = t.blockchain_lock.read().await;
+        let slips = blockchain.get_slips_for(victim_key);
+        assert_eq!(slips.len(), 1);
+        slips[0].clone()
+    };
+    assert_eq!(old_output.block_id, 1);
+
+    // blocks 2 ..= genesis_period + 1 : ordinary traffic of the producer; in block `pay_block_id`
+    // somebody pays the victim the same amount again, as first output (output NEW)
+    let pay_block_id = 60;
+    for id in 2..=(genesis_period + 1) {
+        if id == pay_block_id {
+            let funding = {
+                let blockchain = t.blockchain_lock.read().await;
+                blockchain
+                    .get_slips_for(producer_key)
+                    .into_iter()
+                    .max_by_key(|slip| slip.amount)
+                    .unwrap()
+            };
+            let mut payment = Transaction::default();
+            payment.add_from_slip(funding.clone());
+            let mut to_victim = Slip::default();
+            to_victim.public_key = victim_key;
+            to_victim.amount = amount;
+            payment.add_to_slip(to_victim);
+            let mut change = Slip::default();
+            change.public_key = producer_key;
+            change.amount = funding.amount - amount;
+            payment.add_to_slip(change);
+            payment.sign(&producer_private_key);
+            payment.generate(&producer_key, 0, 0);
+
+            let parent = t.get_latest_block().await;
+            let block = {
+                let configs = t.config_lock.read().await;
+                let blockchain = t.blockchain_lock.read().await;
+                let mut txs: AHashMap<_, _> = Default::default();
+                txs.insert(payment.signature, payment);
+                Block::create(
+                    &mut txs,
+                    parent.hash,
+                    &blockchain,
+                    parent.timestamp + 120_000,
+                    &producer_key,
+                    &producer_private_key,
+                    None,
+                    configs.deref(),
+                    &t.storage,
+                )
+                .await
+                .unwrap()
+            };
+            let result = t.add_block(block).await;
+            assert!(matches!(
+                result,
+                AddBlockResult::BlockAddedSuccessfully(_, true, _)
+            ));
+            continue;
+        }
+        let parent = t.get_latest_block().await;
+        let block = t
+            .create_block(parent.hash, parent.timestamp + 120_000, 1, 1_000, 0, id % 2 == 1)
+            .await;
+        let result = t.add_block(block).await;
+        assert!(
+            matches!(result, AddBlockResult::BlockAddedSuccessfully(_, true, _)),
+            "sanity: block {} is accepted, got {:?}",
+            id,
+            result
+        );
+    }
+    let new_output = {
+        let blockchain = t.blockchain_lock.read().await;
+        let slips = blockchain.get_slips_for(victim_key);
+        assert_eq!(slips.len(), 2);
+        slips
+            .into_iter()
+            .find(|slip| slip.block_id == pay_block_id)
+            .unwrap()
+            .clone()
+    };
+    assert_eq!(new_output.amount, old_output.amount);
+    assert_eq!(new_output.slip_index, old_output.slip_index);
+    assert_eq!(new_output.slip_type, old_output.slip_type);
+
+    // block genesis_period + 2 has to rebroadcast what is left of block 1 : OLD
+    let parent = t.get_latest_block().await;
+    assert_eq!(parent.id, genesis_period + 1);
+    let mut block = t
+        .create_block(
+            parent.hash,
+            parent.timestamp + 120_000,
+            1,
+            1_000,
+            0,
+            (genesis_period + 2) % 2 == 1,
+        )
+        .await;
+    let atr_positions: Vec<usize> = block
+        .transactions
+        .iter()
+        .enumerate()
+        .filter(|(_, tx)| tx.transaction_type == TransactionType::ATR)
+        .map(|(index, _)| index)
+        .collect();
+    assert_eq!(atr_positions.len(), 1, "sanity: one rebroadcast is due");
+    let atr_position = atr_positions[0];
+    assert_eq!(
+        block.transactions[atr_position].from[0].get_utxoset_key(),
+        old_output.utxoset_key,
+        "sanity: the rebroadcast the honest producer builds spends OLD"
+    );
+
+    // the producer rewrites the input coordinates of the rebroadcast so that it consumes NEW,
+    // an output that is far from expiring and whose owner signs nothing
+    block.transactions[atr_position].from[0].block_id = new_output.block_id;
+    block.transactions[atr_position].from[0].tx_ordinal = new_output.tx_ordinal;
+    assert_eq!(
+        block.transactions[atr_position].from[0].get_utxoset_key(),
+        new_output.utxoset_key
+    );
+    block.merkle_root = block.generate_merkle_root(false, false);
+    block.generate_pre_hash();
+    block.sign(&producer_private_key);
+    // what the other nodes get is the serialised block
+    let mut block = Block::deserialize_from_net(&block.serialize_for_net(BlockType::Full)).unwrap();
+    block.generate().unwrap();
+
+    // (the node aborts inside add_block once the block has been wound in : catch that to report it)
+    let outcome = {
+        use futures::FutureExt;
+        std::panic::AssertUnwindSafe(t.add_block(block))
+            .catch_unwind()
+            .await
+    };
+    let node_aborted = outcome.is_err();
+    let result = outcome.ok();
+    let accepted = matches!(
+        result,
+        Some(AddBlockResult::BlockAddedSuccessfully(_, true, _))
+    );
+
+    let blockchain = t.blockchain_lock.read().await;
+    let new_still_unspent = blockchain.utxoset.get(&new_output.utxoset_key) == Some(&true);
+    let old_still_listed = blockchain.utxoset.get(&old_output.utxoset_key) == Some(&true);
+    let latest_block_id = blockchain.get_latest_block_id();
+    let victim_spendable: Currency = blockchain
+        .get_slips_for(victim_key)
+        .iter()
+        .filter(|slip| latest_block_id < slip.block_id + genesis_period)
+        .map(|slip| slip.amount)
+        .sum();
+    if !(!accepted && !node_aborted && new_still_unspent) { witness(format!(
+        "a block was wound onto the longest chain (add_block -> {:?}, node aborted after winding it in = {}) in which an ATR-typed transaction, exempt from signature and ownership checks, spends the victim's live output {}-{}-0 instead of the expiring output 1-0-0 it rebroadcasts (the rebroadcast hash does not cover input coordinates): live output still unspent = {}, expired output left behind in the utxoset = {}, the victim can still spend {} of the {} nolan it owned",
+        result, node_aborted, new_output.block_id, new_output.tx_ordinal, new_still_unspent, old_still_listed, victim_spendable, 2 * amount
+    )); }
+}
